@@ -44,4 +44,59 @@ PROPS = {
         assumptions=["'well-formed finite input' is what the generators of the other drivers produce (finite knots, "
                      "strictly increasing abscissae for the spline, non-empty non-NaN non-decreasing breakpoints)"],
     ),
+    "C13": dict(
+        kind=ONLINE,
+        rule=("cases = distinct ordered pairs of breakpoint lists (symbolic pair pieces) and distinct pairs of "
+              "Piecewise<IntOfLogPoly4> (all numbers); for each, both &f+&g and &f-&g are executed and, at every "
+              "critical query of either operand, the piece selected in the result is compared with the pieces "
+              "selected in f and g by the reference model (symbolic ids; bit-equality of the six numbers with the "
+              "IEEE sum/difference for real pieces); structure (non-empty, ends non-decreasing and drawn from the "
+              "operands, <= len f + len g - 1 pieces) checked on every result; complete small scope of all pairs of "
+              "<=3-end lists over a 4-value alphabet always included"),
+        assumptions=["value-level comparison (f op g)(x) vs f(x) op g(x) uses a loose 1e-9 relative bound; the "
+                     "deciding oracle is structural + bit-exact"],
+    ),
+    "C14": dict(
+        kind=ONLINE,
+        rule=("cases = distinct (operator impl, operand numbers, scalar) triples; each of the 125 operator impls "
+              "named in harness/src/c14.rs is executed and every returned number compared by bits with the single "
+              "IEEE operation on the corresponding input numbers; then the result is evaluated at a generated "
+              "argument and compared with s*f(x), -f(x), f1(x)+-f2(x), f(x)+c within K*2^-53*sum|terms|"),
+        assumptions=["value-level bound K = 8(n+3) (polynomials), 16(n+3) (Log), 32(n+3) (IntOfLog), 1e5 (quartic "
+                     "log-integral: C10's 1e-12*S accuracy); inputs whose terms leave [1e-250,1e250] are skipped "
+                     "and counted"],
+    ),
+    "C15": dict(
+        kind=ONLINE,
+        rule=("cases = distinct (function, scalar, translation) triples; operation-recording pieces show that "
+              "*, *= (value and &mut Segment), neg and translate on Segment/Piecewise apply exactly the one "
+              "operation with the given scalar to every piece and keep count, order and every breakpoint bit; real "
+              "piece types (Poly0-8, Log<.>, IntOfLog<.>, IntOfLogPoly4) are compared bit for bit with the operation "
+              "applied to each piece alone, and (polynomials) at value level on both sides of every breakpoint"),
+    ),
+    "C17": dict(
+        kind=ONLINE,
+        rule=("cases = distinct (type, base value, tolerances) triples; for each, every field position in turn is "
+              "perturbed by {0, tol/2, just inside, 2 tol, far, huge, 1 ulp} and abs_diff_eq / relative_eq (both "
+              "argument orders) are compared with the conjunction of approx's own f64 relations over the flattened "
+              "numbers; Segment<T> (end included), Piecewise<T> (random positions, different lengths) and PolyN too"),
+        assumptions=["approx's f64::abs_diff_eq / relative_eq are the reference for a single pair of numbers"],
+    ),
+    "C18": dict(
+        kind=ONLINE,
+        configs=[dict(profile="verif", features=None, label="noborsh-"), dict(profile="verif", features="borsh", label="borsh-")],
+        rule=("cases = distinct serialized values (type + bit patterns); each is round-tripped through serde_json "
+              "(finite contents), serde_cbor (all non-NaN contents) and, in the configuration built with the "
+              "library's borsh feature, borsh; the flattened numbers before/after are compared by bits and the "
+              "values by ==; the serde lanes run in both feature configurations"),
+        assumptions=["serde_json is built with float_roundtrip (otherwise the text format itself is not f64-faithful)"],
+    ),
+    "C19": dict(
+        kind=ONLINE,
+        rule=("cases = distinct byte strings (random and structured in arbitrary-1.4's wire format: empty list, "
+              "NaN/inf/subnormal/zero ends, descending, duplicate, extreme, 1000 ends, exhausted inside ends or "
+              "pieces); each is decoded as Piecewise<T> for T in {unique-id tag piece, Poly0-8, PolyN}; Ok values "
+              "are checked for >=1 segment, normal non-decreasing ends, and the three evaluation paths are compared "
+              "at the critical queries (forward and backward through the evaluator)"),
+    ),
 }
